@@ -360,12 +360,17 @@ impl Scenario for C13 {
         "C13"
     }
     fn rule(&self) -> String {
-        "Seeded sessions: 1-2 worker threads x 1-2 channels in confirm mode publishing (mandatory or not) while registering, replacing, dropping and reading confirm and return listeners at random points; the broker confirms with singles / multiples / nacks in random batches and returns about half of the mandatory publishes; the connection owner registers (and re-registers) a blocked listener while the broker emits Blocked/Unblocked notices at random times. Oracle (sound model of a racy registry): every listener's items form a contiguous, verbatim, in-order slice of its channel's event stream, slices of successive listeners are disjoint and in registration order; a listener whose registration returned before the publish was issued, and that was still current when a later round trip on the channel completed, holds the confirm / return that publish caused (for blocked notices, which no client request causes: a listener installed — registration followed by a completed open_channel round trip — before the notice was sent holds it); a replaced listener's queue is disconnected one round trip later; with no listener or a dropped one every call still succeeds. Non-trivial = at least one listener was replaced or dropped while events were flowing and >= 3 events were forwarded; distinct = schedule trace hash.".to_string()
+        "Seeded sessions: 1-2 worker threads x 1-2 channels in confirm mode publishing (mandatory or not) while registering, replacing, dropping and reading confirm and return listeners at random points; the broker confirms with singles / multiples / nacks in random batches and returns about half of the mandatory publishes; the connection owner registers (and re-registers) a blocked listener while the broker emits Blocked/Unblocked notices at random times. Oracle (sound model of a racy registry): every listener's items form a contiguous, verbatim, in-order slice of its channel's event stream, slices of successive listeners are disjoint and in registration order; a listener whose registration returned before the publish was issued, and that was still current when a later round trip on the channel completed, holds the confirm / return that publish caused (for blocked notices, which no client request causes: a listener installed — registration followed by a completed open_channel round trip — before the notice was sent holds it); a replaced listener's queue is disconnected one round trip later; with no listener or a dropped one every call still succeeds. Family 'early-close': listeners registered before the first publish and left alone; the owner closes the connection while confirmations and returns are outstanding, the server (slow with its CloseOk) sends them ahead of it, the listeners are read after close() has returned and must hold exactly what the server sent on their channel. Non-trivial = at least one listener was replaced or dropped while events were flowing and >= 3 events were forwarded; distinct = schedule trace hash.".to_string()
     }
     fn plan(&self, thorough: bool, seed: u64) -> Vec<CaseSpec> {
-        plan_random("C13", "listeners", seed, if thorough { 300_000 } else { 15_000 })
+        let mut v = plan_random("C13", "listeners", seed, if thorough { 300_000 } else { 15_000 });
+        v.extend(plan_random("C13", "early-close", seed, if thorough { 40_000 } else { 3_000 }));
+        v
     }
     fn run_case(&self, spec: &CaseSpec, text: bool) -> CaseReport {
+        if spec.family == "early-close" {
+            return run_early_close(spec, text);
+        }
         let mut cs = spec.stream();
         let mut g = GenCfg::default();
         g.consume = false;
@@ -477,4 +482,131 @@ impl Scenario for C13 {
         rep.distinct = rep.trace_hash;
         rep
     }
+}
+
+
+/// Family 'early-close': listeners are registered before the first publish and never touched again; the owner
+/// closes the connection while confirmations and returns are still outstanding, the server sends them ahead of
+/// its CloseOk, and the listeners are read after close() has returned.  Everything the server sent on a channel
+/// must be there, verbatim and in order: the client's own Close in flight is no reason to drop inbound events.
+fn run_early_close(spec: &CaseSpec, text: bool) -> CaseReport {
+    let mut cs = spec.stream();
+    let mut g = GenCfg::default();
+    g.consume = false;
+    g.get = false;
+    g.acks = false;
+    g.rpc = false;
+    g.write_faults = false;
+    g.body_factor = 1;
+    g.frame_max_choices = vec![(0, 4096), (0, 131072)];
+    let (cfm, sfm) = *pick(&mut cs, "frame_max_pair", &g.frame_max_choices);
+    let frame_max = negotiated_frame_max(cfm, sfm);
+    let sched = gen_sched(&mut cs);
+    let net = gen_net(&mut cs, &g);
+    let mut broker = gen_broker(&mut cs, &g, sfm, 600);
+    broker.confirm_style = cs.choose("confirm_style", 3).min(1);
+    broker.return_permille = 550;
+    broker.body_max = 300;
+    // the server takes its time over confirmations and longer still over the CloseOk
+    broker.think_min_ns = 0;
+    broker.think_max_ns = *pick(&mut cs, "think", &[200_000u64, 1_000_000, 20_000]);
+    broker.closeok_delay_ns = 3_000_000 + cs.choose("closeok_delay_us", 4000) as u64 * 1000;
+    let n_threads = 1 + cs.choose("n_threads", 2) as usize;
+    let mut threads = Vec::new();
+    for t in 0..n_threads {
+        let mut ops: Vec<(usize, Op)> = vec![(0, Op::ListenConfirms), (0, Op::ListenReturns), (0, Op::ConfirmSelect { nowait: false })];
+        let n_pub = 1 + cs.choose("n_publishes", 12) as usize;
+        for i in 0..n_pub {
+            ops.push((0, Op::Publish { exchange: "".into(), rk: format!("t{}k{}", t + 1, i), mandatory: cs.choose("mandatory", 3) != 0, immediate: false, props: cs.choose("props", 3), body_len: cs.choose("len", 200) as usize, via_exchange: false }));
+        }
+        // wait until the connection is long closed, then read what the listeners hold
+        ops.push((0, Op::Gate(7)));
+        ops.push((0, Op::ReadConfirms));
+        ops.push((0, Op::ReadReturns));
+        threads.push(ThreadPlan { chan_ids: vec![None], ops, close_channels: false });
+    }
+    // the owner gives the publishers a moment (or not) and closes
+    let owner_ops = vec![OwnerOp::SleepNs(*pick(&mut cs, "close_after", &[300_000u64, 100_000, 1_000_000, 3_000_000]))];
+    let mut opts = ConnOpts::default();
+    opts.frame_max = cfm;
+    let plan = SessionPlan { opts, tuning: Tuning { bound: *pick(&mut cs, "bound", &[16usize, 1, 2, 0]), high: 16 << 20, low: 0 }, threads, owner_ops, close: CloseKind::Close, join_before_close: false };
+    let gen = Generated { plan, net, broker, sched, frame_max };
+    let (res, world) = run_generated(&gen, cs, text, |_| {
+        crate::world::call_in(2_000_000_000, |_| amiquip_simrt::gate_open(7));
+    });
+    let mut rep = CaseReport::default();
+    fill_common(&mut rep, &res, &world);
+    rep.sample = plan_summary(&gen);
+    for p in &res.run.panics {
+        rep.violate("panic", format!("{}@{}", p.thread, p.location), format!("{} panicked: {}", p.thread, p.message));
+    }
+    if let Some((sig, detail)) = hang_sig(&res.run.outcome) {
+        rep.violate("hang", sig, format!("close with confirmations outstanding: {}", detail));
+        return rep;
+    }
+    if rep.inconclusive.is_some() {
+        return rep;
+    }
+    let close = res.hist.conn.iter().find_map(|c| if let ConnRec::Close { result, ret, .. } = c { Some((result.clone(), *ret)) } else { None });
+    match &close {
+        Some((Ok(()), _)) => {}
+        other => {
+            rep.violate("disturbed", "close-failed", format!("plain client close with confirmations outstanding returned {:?}", other.as_ref().map(|x| &x.0)));
+            return rep;
+        }
+    }
+    let mut events = 0u64;
+    let mut after_close_frame = 0u64;
+    // position of the client's Connection.Close in the broker's view: events the broker sent after it had received it
+    let close_seen = world.broker.received.iter().find(|r| matches!(&r.frame, Some(amq_protocol::frame::AMQPFrame::Method(0, amq_protocol::protocol::AMQPClass::Connection(amq_protocol::protocol::connection::AMQPMethod::Close(_)))))).map(|r| r.stamp);
+    let mut threads: BTreeMap<usize, Vec<&OpRec>> = BTreeMap::new();
+    for o in &res.hist.ops {
+        threads.entry(o.thread).or_default().push(o);
+    }
+    for (_t, ops) in &threads {
+        let ch = match ops.iter().map(|o| o.ch_id).find(|c| *c != 0) {
+            Some(c) => c,
+            None => continue,
+        };
+        // a publisher that had not finished when the connection closed: its later calls fail, fine; but the
+        // listeners were registered first
+        let registered = ops.iter().filter(|o| matches!((&o.op, &o.result), (Op::ListenConfirms, OpResult::Unit) | (Op::ListenReturns, OpResult::Unit))).count() == 2;
+        if !registered {
+            continue;
+        }
+        // only what was completely on the wire ahead of the CloseOk counts: the client stops reading there (the
+        // simulated broker may flush the tail of a content it had begun behind its CloseOk)
+        let cut = world.broker.sent.iter().find(|s| matches!(s.kind, SentKind::ConnectionCloseOk)).map(|s| s.s2c_start).unwrap_or(usize::MAX);
+        let sent_c: Vec<Cf> = world.broker.sent.iter().filter(|s| s.s2c_end <= cut).filter_map(|s| if let SentKind::Confirm { ch: c, ack, tag, multiple } = &s.kind { if *c == ch { Some((*ack, *tag, *multiple)) } else { None } } else { None }).collect();
+        let sent_r: Vec<String> = world.broker.sent.iter().filter(|s| s.s2c_end <= cut).filter_map(|s| if let SentKind::Return { ch: c, msg, code, text } = &s.kind { if *c == ch { Some(format!("{}|{}|{}|{}", code, text, msg.routing_key, crate::wire::fnv(&msg.body))) } else { None } } else { None }).collect();
+        if let Some(cs_) = close_seen {
+            after_close_frame += world.broker.sent.iter().filter(|s| s.stamp > cs_ && matches!(&s.kind, SentKind::Confirm { ch: c, .. } | SentKind::Return { ch: c, .. } if *c == ch)).count() as u64;
+        }
+        let got_c: Option<(Vec<Cf>, bool)> = ops.iter().find_map(|o| if let (Op::ReadConfirms, OpResult::Confirms(v, d)) = (&o.op, &o.result) { Some((v.clone(), *d)) } else { None });
+        let got_r: Option<(Vec<String>, bool)> = ops.iter().find_map(|o| if let (Op::ReadReturns, OpResult::Returns(v, d)) = (&o.op, &o.result) { Some((v.iter().map(|r| format!("{}|{}|{}|{}", r.reply_code, r.reply_text, r.routing_key, crate::wire::fnv(&r.body))).collect(), *d)) } else { None });
+        if let Some((got, disc)) = got_c {
+            events += sent_c.len() as u64;
+            if got != sent_c {
+                rep.violate("confirm-missed", "close-in-progress", format!("channel {}: the confirm listener was registered before the first publish and read after Connection::close had returned: the server sent {:?} (all ahead of its CloseOk), the listener holds {:?}", ch, sent_c, got));
+                return rep;
+            }
+            if !disc {
+                rep.violate("confirm-forwarding", "still-connected-after-close", format!("channel {}: confirm listener not disconnected after the connection was closed", ch));
+                return rep;
+            }
+        }
+        if let Some((got, _)) = got_r {
+            events += sent_r.len() as u64;
+            if got != sent_r {
+                rep.violate("return-missed", "close-in-progress", format!("channel {}: the return listener was registered before the first publish and read after Connection::close had returned: the server sent {} returns {:?} (all ahead of its CloseOk), the listener holds {:?}", ch, sent_r.len(), sent_r, got));
+                return rep;
+            }
+        }
+    }
+    rep.count("c13.early_close_runs", 1);
+    rep.count("c13.early_close_events_compared", events);
+    rep.count("c13.early_close_events_sent_after_client_close", after_close_frame);
+    rep.nontrivial = after_close_frame > 0;
+    rep.distinct = rep.trace_hash;
+    rep
 }
